@@ -37,15 +37,16 @@ package c18
 import (
 	"fmt"
 	"os"
+	"path/filepath"
 	"sort"
 	"strings"
 	"sync"
-	"sync/atomic"
 	"time"
 
 	qbe "compiler/internal/codegen/qbe_embeddings"
 	"compiler/internal/mir"
 	"compiler/internal/types"
+	"compiler/verifh/fe"
 	"compiler/verifh/run"
 	"compiler/verifh/vl"
 )
@@ -284,12 +285,12 @@ func behaviouralTypes(quick bool) (fine, lean, res []*ty, bound string) {
 		for _, l := range all6 {
 			d1 = append(d1, tOpt(l))
 		}
-		d1n := depth1(sib, 2)
+		d1n := depth1(leavesOf("i8", "i64"), 2)
 		d2 := wrap(d1n, sib, 2)
 		fine = depth1(leavesOf("i8", "i64"), 2)
 		lean = append(append(lean, d1...), d2...)
 		res = append(results(nil, all6), results(d1n, leavesOf("i8", "i64"))...)
-		bound = fmt.Sprintf("behavioural: depth1 = structs of 1-2 fields over {i8,i16,i32,i64,bool,str}, of 3 fields over {i8,i64,str} and over {i16,i32,i64}, [2]T/[3]T/T? over all six: %d types; depth2 = one composite child from the depth1 over {i8,i64,str} with structs<=2 fields (%d), siblings {i8,i64,str}, structs<=2 fields: %d types; fine-grained case set on the depth1 over {i8,i64} (%d types); results: leaf x leaf over six leaves, and one composite side from the %d children with the other side in {i8,i64}: %d", len(d1), len(d1n), len(d2), len(fine), len(d1n), len(res))
+		bound = fmt.Sprintf("behavioural: depth1 = structs of 1-2 fields over {i8,i16,i32,i64,bool,str}, of 3 fields over {i8,i64,str} and over {i16,i32,i64}, [2]T/[3]T/T? over all six: %d types; depth2 = one composite child from the depth1 over {i8,i64} with structs<=2 fields (%d), siblings {i8,i64,str}, structs<=2 fields: %d types; fine-grained case set on the depth1 over {i8,i64} (%d types); results: leaf x leaf over six leaves, and one composite side from the %d children with the other side in {i8,i64}: %d", len(d1), len(d1n), len(d2), len(fine), len(d1n), len(res))
 		return
 	}
 	all7 := leavesOf("i8", "i16", "i32", "i64", "i128", "bool", "str")
@@ -423,22 +424,38 @@ func Run(c *vl.Ctx) {
 		// machine; its behaviour does not depend on the setting
 		os.Setenv("GOMAXPROCS", "1")
 		rn := run.New(c)
+		rn.RunTimeout = 60 * time.Second
 		dbg("compiler and runtime built")
+		pool := fe.NewPool(c.W, filepath.Join(c.Repo, "ferret_libs"), 7)
 		var judged, rejected, programs int64
 		families := map[string][2]int64{}
+		var wg sync.WaitGroup
+		var rmu sync.Mutex
 		for _, target := range []string{"native", "wasm"} {
 			if tg := os.Getenv("VERIF_C18_TARGET"); tg != "" && tg != target {
 				continue
 			}
-			j, r, p, fam := runTarget(c, rn, target, cases, 130, 6)
-			atomic.AddInt64(&judged, j)
-			dbg(fmt.Sprintf("%s done: judged %d rejected %d programs %d", target, j, r, p))
-			rejected += r
-			programs += p
-			for k, v := range fam {
-				families[k] = v
+			r := &runner{c: c, rn: rn, target: target, workers: 7}
+			if target == "wasm" && os.Getenv("VERIF_C18_WASM_BINARY") == "" {
+				r.pool = pool
 			}
+			wg.Add(1)
+			go func() {
+				defer wg.Done()
+				tr := runTarget(c, r, cases, 130, 6)
+				dbg(fmt.Sprintf("%s done: judged %d rejected %d timeouts %d programs %d", r.target, tr.judged, tr.rejected, tr.timeouts, tr.programs))
+				rmu.Lock()
+				defer rmu.Unlock()
+				judged += tr.judged
+				rejected += tr.rejected
+				programs += tr.programs
+				for k, v := range tr.fam {
+					families[k] = v
+				}
+			}()
 		}
+		wg.Wait()
+		pool.Close()
 		evals += judged
 		c.Count("behavioural_cases_judged", judged)
 		c.Count("behavioural_cases_rejected_by_target", rejected)
